@@ -83,6 +83,18 @@ def deposed(m, w, k=1, tail=2, newk=1, old=N1, new=N2):
     return w
 
 
+def deposed_twice(m, w, k=1, tail=3, newk=3, newk2=2, old=N1, new=N2, newer=N3):
+    """As deposed, then a third node takes over from `new` and appends more: the old leader's
+    log conflicts several entries below the current leader's optimistic nextIndex."""
+    w = deposed(m, w, k, tail, newk, old, new)
+    rest = [n for n, _ in w.nodes if n != old]
+    w = elect(m, w, newer, only=rest)
+    w = beat(m, w, newer, only=rest, times=2)
+    if newk2:
+        w = submit(m, w, newer, newk2, only=rest)
+    return w
+
+
 def deposed_snap(m, w, k=1, tail=2, newk=2, old=N1, new=N2):
     w = deposed(m, w, k, tail, newk, old, new)
     w = compact(m, w, new)
@@ -134,7 +146,7 @@ def fig8(m, w):
 
 
 SEEDS = dict(fresh=fresh, steady=steady, lagging=lagging, lagging_snap=lagging_snap, deposed=deposed,
-             deposed_snap=deposed_snap, pending=pending, reconnect_pipeline=reconnect_pipeline,
+             deposed_snap=deposed_snap, deposed_twice=deposed_twice, pending=pending, reconnect_pipeline=reconnect_pipeline,
              forwarded=forwarded, fig8=fig8)
 
 
